@@ -4,13 +4,18 @@
    per-atom data of BOTH the public table and a fully initialised private table – in-place mutation
    of any of them through one table would change the other;
  * foreign: formulas built with table=T (formula, mix_by_weight, mix_by_volume, string and Formula
-   components, nested mixtures) that contain an atom that is not an atom of T.
+   components, nested mixtures) that contain an atom that is not an atom of T;
+ * changed: values the public table / a second private table serve (lookups by name, valid charges, per-atom
+   data, calculator results) that differ after the data of a private table R (names, oxidation states, masses,
+   scattering lengths) were revised and R was used;
+ * follows: routes taking a compound string with table=R (package-level and module-level calculators, formula,
+   mixtures) whose result is not the one computed from formula(string, table=R) - R holding revised data.
 """
 import json
 import sys
 
 
-def main(repo):
+def main(repo, seed="0"):
     sys.path.insert(0, repo)
     import numpy as np
     import periodictable as pt
@@ -173,9 +178,130 @@ def main(repo):
         for a in f.atoms:
             if core.change_table(a, T) is not a:
                 foreign.append("%s(..., table=T) contains %r, which is not an atom of T" % (name, a))
+    # -- a private table R whose data are then revised (names, oxidation states, masses, scattering lengths):
+    #    what the public table and the other private tables serve - lookups by name, valid charges, per-atom
+    #    data, calculator results - is the same before and after the revision and its use; and every route that
+    #    takes a compound string with table=R computes what it computes from formula(string, table=R)
+    import random
+    rng = random.Random("nested/%s" % seed)
+    R = new_table("ptv-revised")
+    zs = [13, 55, 26, 118, 1, 8] + rng.sample([z for z in range(2, 118) if z not in (8, 13, 26, 55)], 3)
+    british = {13: "aluminium", 55: "caesium"}
+    new_names = {z: british.get(z, "element-%d" % z) for z in zs}
+    name_keys = sorted({pt.elements[z].name for z in zs} | set(new_names.values())
+                       | {"deuterium", "tritium", "hydrogen-2", "hydrogen-3", "iron", "oxygen"})
+    compounds = ["CaCO3+6H2O", "Fe2O3", "H[2]2O", "D2O", "Al2O3 + 3H2O", "CsCl"]
+
+    def out(fn):
+        try:
+            return _dig(fn())
+        except Exception as e:  # noqa
+            return "raises " + type(e).__name__
+
+    def served(tbl, with_calcs):
+        d = {}
+        for k in name_keys:
+            d["name(%r)" % k] = out(lambda: tbl.name(k))
+        for z in zs:
+            el = tbl[z]
+            d["%s.name" % el.symbol] = out(lambda: el.name)
+            d["%s.ions" % el.symbol] = out(lambda: tuple(el.ions))
+            d["%s.mass" % el.symbol] = out(lambda: el.mass)
+            d["%s.density" % el.symbol] = out(lambda: el.density)
+            d["%s.neutron" % el.symbol] = out(lambda: el.neutron)
+            for q in range(-4, 9):
+                d["%s.ion[%d]" % (el.symbol, q)] = out(lambda: el.ion[q])
+                if el.isotopes:
+                    d["%s[%d].ion[%d]" % (el.symbol, el.isotopes[0], q)] = out(lambda: el[el.isotopes[0]].ion[q])
+        d["D.name"], d["T.name"] = out(lambda: tbl.D.name), out(lambda: tbl.T.name)
+        kw = {} if tbl is pt.elements else dict(table=tbl)
+        for c in compounds:
+            d["formula(%r).mass" % c] = out(lambda: formulas.formula(c, **kw).mass)
+            d["neutron_scattering(%r)" % c] = out(lambda: pt.neutron_scattering(c, density=1.7, **kw))
+            d["neutron_sld(%r)" % c] = out(lambda: pt.neutron_sld(c, density=1.7, wavelength=4.75, **kw))
+            if with_calcs:
+                d["xray_sld(%r)" % c] = out(lambda: pt.xray_sld(c, density=1.7, energy=8.0))
+        return d
+
+    others = [("the public table", pt.elements, True), ("another private table", T2, False)]
+    before = [served(t, w) for _, t, w in others]
+    fresh_R = served(R, False)
+    changed = []
+    revised_err = []
+    try:
+        for z in zs:
+            R[z].name = new_names[z]
+        R.D.name, R.T.name = "hydrogen-2", "hydrogen-3"
+        R.Og.ions = (2, 4)
+        R.Fe.ions = (2, 3)
+        R.O._mass = R.O._mass * 1.25
+        R.H._mass = R.H._mass * 1.5
+        R.Cs._density = 2.5
+        for a in (R.H, R.H[1], R.H[2], R.Fe, R.Ca):
+            a.neutron.b_c = a.neutron.b_c + 1.0
+            a.neutron.b_c_complex = a.neutron.b_c_complex + 1.0
+            a.neutron.coherent = a.neutron.coherent * 1.5
+            a.neutron.incoherent = a.neutron.incoherent * 1.5 + 0.25
+            a.neutron.absorption = a.neutron.absorption * 2 + 0.125
+        # use the revised table: lookups by the new and the old keys, new charges
+        for k in name_keys:
+            out(lambda: R.name(k))
+        for el in (R.Og, R.Fe):
+            for q in range(-4, 9):
+                out(lambda: el.ion[q])
+                out(lambda: el[el.isotopes[0]].ion[q])
+        after_R = served(R, False)
+    except Exception as e:  # noqa
+        revised_err.append("revising and reading the private table raised %s: %s" % (type(e).__name__, e))
+        after_R = fresh_R
+    for (label, t, w), b in zip(others, before):
+        a = served(t, w)
+        for k in sorted(b):
+            if a[k] != b[k]:
+                changed.append("%s serves another value for %s after the data of a private table R were revised and "
+                               "looked up in R (before: %s, after: %s)" % (label, k, b[k][:60], a[k][:60]))
+    # routes that parse a compound string with table=R
+    follows = []
+    routes = [
+        ("periodictable.neutron_scattering", lambda c, **kw: pt.neutron_scattering(c, density=1.7, **kw)),
+        ("periodictable.neutron_scattering(wavelength=4.75)", lambda c, **kw: pt.neutron_scattering(c, density=1.7, wavelength=4.75, **kw)),
+        ("periodictable.neutron_sld", lambda c, **kw: pt.neutron_sld(c, density=1.7, **kw)),
+        ("nsf.neutron_scattering", lambda c, **kw: nsf.neutron_scattering(c, density=1.7, **kw)),
+        ("nsf.neutron_sld", lambda c, **kw: nsf.neutron_sld(c, density=1.7, **kw)),
+        ("periodictable.formula(...).mass", lambda c, **kw: pt.formula(c, **kw).mass),
+        ("periodictable.mix_by_weight(...).mass", lambda c, **kw: pt.mix_by_weight(c, 2, "H2O", 1, **kw).mass),
+        ("periodictable.mix_by_volume(...).mass", lambda c, **kw: pt.mix_by_volume(
+            c if isinstance(c, str) else formulas.formula(c, density=1.7), 2,
+            "H2O@1" if isinstance(c, str) else formulas.formula("H2O@1", table=R), 1, **kw).mass),
+    ]
+    for c in compounds:
+        try:
+            parsed = formulas.formula(c, table=R)
+        except Exception as e:  # noqa
+            revised_err.append("formula(%r, table=R) raised %s" % (c, type(e).__name__))
+            continue
+        for a in parsed.atoms:
+            if core.change_table(a, R) is not a:
+                foreign.append("formula(%r, table=R) on a table with revised data contains %r, not an atom of R" % (c, a))
+        for label, fn in routes:
+            if "mix_by_volume" in label:
+                cs = c + "@1.7"
+                want = out(lambda: fn(formulas.formula(cs, table=R), table=R))
+                got = out(lambda: fn(cs, table=R))
+                pub = out(lambda: fn(cs))
+            else:
+                want = out(lambda: fn(parsed, table=R)) if "mix" in label else out(lambda: fn(parsed))
+                got = out(lambda: fn(c, table=R))
+                pub = out(lambda: fn(c))
+            if got != want:
+                follows.append("%s(%r, table=R) on a table R with revised data returns %s; from formula(%r, table=R) it "
+                               "is %s%s" % (label, c, got[:80], c, want[:80],
+                                            " (the public table gives the returned value)" if got == pub else ""))
     print(json.dumps(dict(shared=shared, foreign=sorted(set(foreign)), objects=len(A), differs=differs[:40],
-                          ndiffers=len(differs), restored=restored)))
+                          ndiffers=len(differs), restored=restored, changed=changed[:40], nchanged=len(changed),
+                          follows=follows[:40], revised_err=revised_err,
+                          revised_effective=sum(1 for k in fresh_R if fresh_R[k] != after_R[k]))))
 
 
 if __name__ == "__main__":
-    main(sys.argv[1])
+    main(*sys.argv[1:3])
